@@ -644,13 +644,17 @@ def exact_check_pair2(c, o, dist=None):
                  clause="inferred covariance, correlation")
             return fails
     k1, k2, cc = unbits(c["k1"]), unbits(c["k2"]), unbits(c["c"])
+    mag_a = sum(abs(unbits(x)) for x in c["xs"]) / len(c["xs"]) + 1e-300
+    mag_b = sum(abs(unbits(y)) for y in c["ys"]) / len(c["ys"]) + 1e-300
     for i, (st, ex) in enumerate(zip(o["states"], states)):
         step = "init" if i == 0 else "{}.{}".format(*c["steps"][i - 1])
         if not isinstance(st, dict):
             fail("pair2:exception", "selector / read raised", st, None, step=i)
             break
         va, ea, vb, eb, r = ex
-        mags = [abs(va) + 1e-300, ea, abs(vb) + 1e-300, eb]
+        # a value is judged relative to the size of the readings it is formed from, never to itself:
+        # a weighted mean that is exactly 0 is reproduced only up to the rounding of its terms
+        mags = [mag_a, ea, mag_b, eb]
         tl = [1e-11, 10 * tol, 1e-11, 10 * tol]
         if not all(isinstance(x, float) and abs(x - y) <= t * max(g, abs(y)) + 1e-300
                    for x, y, t, g in zip(st["pairs"], ex[:4], tl, mags)):
@@ -674,8 +678,19 @@ def exact_check_pair2(c, o, dist=None):
                      clause="used in all later propagation, Monte Carlo")
                 break
         for sh in SHAPES:
-            if sh == "quot" and abs(vb) < 1e-6 * (abs(va) + 1.0):
+            if sh == "quot" and abs(vb) < 1e-3 * mag_b:
                 continue
+            got = st[sh]
+            wantv, vmag = {"lin": (k1 * va + k2 * vb + cc, abs(k1) * mag_a + abs(k2) * mag_b + abs(cc)),
+                           "sub": (va - vb, mag_a + mag_b), "prod": (va * vb, mag_a * mag_b),
+                           "quot": (va / vb if vb else 0.0, mag_a / abs(vb) if vb else 1.0)}[sh]
+            if isinstance(got, list) and isinstance(got[0], float) and \
+                    not abs(got[0] - wantv) <= 1e-10 * max(vmag, abs(wantv)) + 1e-300:
+                fail("pair2:downstream:{}:value".format(sh), "after {} the value of {} is not the formula "
+                     "at the values in use".format(step, sh), got[0], wantv, step=i, shape=sh,
+                     clause="used in all later propagation")
+                bad = True
+                break
             terms = radicand_terms(sh, k1, k2, va, ea, vb, eb, r)
             T = sum(abs(t) for t in terms)
             R = sum(terms)
@@ -686,7 +701,6 @@ def exact_check_pair2(c, o, dist=None):
             if dist is not None:
                 dist["pair-downstream:judged-read:" + sh + (":correlated" if r != 0 else ":uncorrelated")] += 1
             want = math.sqrt(R)
-            got = st[sh]
             if not isinstance(got, list) or not isinstance(got[1], float):
                 fail("pair2:downstream:{}:exception".format(sh), "reading {} of the two repeated "
                      "measurements raised after {}".format(sh, step), got, want, step=i, shape=sh,
